@@ -11,5 +11,7 @@ pub mod slot_lock;
 pub mod track;
 pub mod try_chunks;
 pub mod utils;
+#[cfg(undermoon_verif)]
+pub mod verif_sched;
 pub mod version;
 pub mod yield_now;
